@@ -83,7 +83,7 @@ func verifHdrVal() string {
 // X-Connecting-Ip value and none of the client-supplied client-IP headers; requests
 // that are not proxied never reach the backend.
 //
-//verif:harness name=H19b-headers tier=quick,thorough bounds="method GET/POST/DELETE, 10 concrete request targets (4 documented shapes, robots.txt, other, percent-encoded letters, dots and slashes), each forged header present or absent with a symbolic value, Connection header absent or naming X-Connecting-Ip / X-Real-Ip as hop-by-hop, peer address d.d.d.d:port with symbolic digits" reach=proxied,not-found,robots maxpaths=20000
+//verif:harness name=H19b-headers tier=quick,thorough bounds="method GET/POST/DELETE, 10 concrete request targets (4 documented shapes, robots.txt, other, percent-encoded letters, dots and slashes), each forged header absent, present with a symbolic value, or sent twice with an empty first value, Connection header absent or naming X-Connecting-Ip / X-Real-Ip as hop-by-hop, peer address d.d.d.d:port with symbolic digits" reach=proxied,not-found,robots maxpaths=200000
 //verif:assume ReverseProxy.ServeHTTP is replaced by its documented Rewrite-then-RoundTrip behaviour in the symbolic build incl. hop-by-hop header removal (other net/http internals and X-Forwarded-* handling outside the claim); request IDs not generated
 func VerifC19Headers() {
 	api, _ := url.Parse("https://backend.example/api")
@@ -102,8 +102,12 @@ func VerifC19Headers() {
 	hdr := http.Header{}
 	forged := []string{"Cf-Connecting-Ip", "Forwarded", "True-Client-Ip", "X-Real-Ip", "X-Connecting-Ip"}
 	for _, name := range forged {
-		if verifChoice(2) == 1 {
+		switch verifChoice(3) {
+		case 1:
 			hdr[name] = []string{verifHdrVal()}
+		case 2:
+			// the header sent twice, the first time empty
+			hdr[name] = []string{"", "6.6.6.6"}
 		}
 	}
 	// the client may declare any header hop-by-hop
